@@ -3,6 +3,7 @@ package c09
 
 import (
 	"fmt"
+	"github.com/enbility/spine-go/model"
 	"sort"
 	"strings"
 	"testing"
@@ -65,6 +66,58 @@ func (m *machine) checkRegistry(t *rapid.T, after string) {
 	}
 	if n != len(m.binds) {
 		world.Fail(t, "C09/registry-mismatch/count", "%d entries reported, model has %d%s", n, len(m.binds), m.history())
+	}
+	// ... and the same as a peer sees it: the reply to its request for the binding data (this
+	// implementation serves the list on a call)
+	for pi, p := range m.w.Peers {
+		p.Cap.Drain()
+		d := p.Msg(model.CmdClassifierTypeCall, p.NM(), world.LocalNM(), false, nil, model.CmdType{NodeManagementBindingData: &model.NodeManagementBindingDataType{}})
+		p.Send(d)
+		m.w.Sync()
+		var reply *model.NodeManagementBindingDataType
+		for _, s := range p.Cap.Drain() {
+			if s.Classifier() == model.CmdClassifierTypeReply && s.Ref() != nil && *s.Ref() == *d.Header.MsgCounter {
+				reply = s.Cmd().NodeManagementBindingData
+				if reply == nil {
+					reply = &model.NodeManagementBindingDataType{}
+				}
+			}
+		}
+		if reply == nil {
+			world.Fail(t, "C09/reported-list/no-reply", "peer%d's request for the binding data was not answered%s", pi+1, m.history())
+		}
+		want := map[string]bool{}
+		for k := range m.binds {
+			if k.Peer == pi {
+				want[k.Client+"->"+k.Server] = true
+			}
+		}
+		gotPairs := map[string]int{}
+		idsSeen := map[uint64]bool{}
+		for _, e := range reply.BindingEntry {
+			if e.ClientAddress == nil || e.ServerAddress == nil || e.BindingId == nil {
+				world.Fail(t, "C09/reported-list/incomplete-entry", "peer%d's binding list holds an incomplete entry: %s%s", pi+1, world.JSON(e), m.history())
+			}
+			gotPairs[refOfAddr(e.ClientAddress)+"->"+refOfAddr(e.ServerAddress)]++
+			if idsSeen[uint64(*e.BindingId)] {
+				world.Fail(t, "C09/reported-list/duplicate-id", "peer%d's binding list holds id %d twice%s", pi+1, *e.BindingId, m.history())
+			}
+			idsSeen[uint64(*e.BindingId)] = true
+		}
+		okList := len(gotPairs) == len(want) && len(reply.BindingEntry) == len(want)
+		for k, c := range gotPairs {
+			if !want[k] || c != 1 {
+				okList = false
+			}
+		}
+		if !okList {
+			var w []string
+			for k := range want {
+				w = append(w, k)
+			}
+			sort.Strings(w)
+			world.Fail(t, "C09/reported-list/differs-from-registry", "after %s the binding list peer%d reads (%s) is not its entries %v%s", after, pi+1, world.JSON(reply), w, m.history())
+		}
 	}
 	// at no time more than one binding per server feature
 	for i, r := range regs.ServerRefs {
@@ -194,4 +247,16 @@ func TestBindings(t *testing.T) {
 			world.Sample(map[string]any{"history": m.hist})
 		}
 	}))
+}
+
+func refOfAddr(a *model.FeatureAddressType) string {
+	var ent []uint
+	for _, e := range a.Entity {
+		ent = append(ent, uint(e))
+	}
+	f := uint(0)
+	if a.Feature != nil {
+		f = uint(*a.Feature)
+	}
+	return regs.Ref{Ent: ent, Feat: f}.String()
 }
